@@ -29,7 +29,7 @@ type ingressWitness struct {
 }
 
 func layerIngress(h *harness.H) {
-	h.AddRule("ingress: case = op set + per-replica permutation/duplication/batching + interleaved local writes (generator of C06), notification stream = accepted output of the real filterPersist plus output of the real local persist; distinct = hash of op set and delivery order; non-trivial = some op was redelivered after it had been notified and some op lost to a stored newer one")
+	h.AddRule("ingress: case = op set + per-replica permutation/duplication/batching + interleaved local transactions of 1-3 ops whose leases are decided before newer remote ops for the same keys arrive (generator of C06), notification stream = accepted output of the real filterPersist plus output of the real local persist; distinct = hash of op set and delivery order; non-trivial = some op was redelivered after it had been notified and some op lost to a stored newer one")
 	n := h.N(3000, 150000)
 	par := runtime.GOMAXPROCS(0)
 	if par > 16 {
@@ -74,6 +74,7 @@ func ingressCase(h *harness.H, c int) {
 		notified[i] = map[int]int{}
 	}
 	redeliveredAfterNotify, lostToNewer, nNotified := 0, 0, 0
+	nLocalOps, nLocalLost := 0, 0
 	for si, st := range t.Steps {
 		if st.Err != "" {
 			continue // C06 reports pipeline errors
@@ -112,6 +113,21 @@ func ingressCase(h *harness.H, c int) {
 				lostToNewer++
 			}
 		}
+		// every notified op changed the stored state: the last op notified for a key in
+		// this step is what the replica stores for the key afterwards
+		lastFor := map[string]aspenkit.Op{}
+		for _, id := range st.Accepted {
+			lastFor[t.Ops[id].Key] = t.Ops[id]
+		}
+		for k, o := range lastFor {
+			if post := st.Post[k]; !post.HasDigest || post.Version != o.Version || post.Lease != o.Lease {
+				viol(si, "c13:ingress:notified-op-was-not-stored", fmt.Sprintf("replica %d (%s step) notified %s but stores %s for the key afterwards", st.Replica, st.Kind, o, post))
+			}
+		}
+		if st.Kind == "local" {
+			nLocalOps += len(st.Ops)
+			nLocalLost += len(st.Rejected)
+		}
 		for _, k := range t.Keys {
 			pre, post := st.Pre[k], st.Post[k]
 			if pre == post {
@@ -139,6 +155,10 @@ func ingressCase(h *harness.H, c int) {
 	h.Count("ingress_ops_lost_to_stored_newer", lostToNewer)
 	h.Count("ingress_batches", t.NBatches)
 	h.Count("ingress_local_writes", t.NLocal)
+	h.Count("ingress_local_ops", nLocalOps)
+	h.Count("ingress_local_ops_lost_at_commit_not_notified", nLocalLost)
+	h.Count("ingress_local_multi_op_txs", t.NLocalMulti)
+	h.Count("ingress_local_txs_with_winner_and_loser", t.NLocalMixed)
 	h.Count("ingress_replica_streams", len(t.ReplicaIDs))
 	if c < 2 {
 		h.Sample(map[string]any{"layer": "ingress", "case": c, "replicas": t.ReplicaIDs, "ops": t.Ops, "steps": len(t.Steps), "first_steps": t.Steps[:min(3, len(t.Steps))]})
